@@ -60,6 +60,10 @@ pub struct Compiler {
 
     /// Source file path for stack traces (propagated to all nested chunks)
     source_file: Option<String>,
+
+    /// Function declarations (by the source range they span) that were created at the top
+    /// of their statement list and are skipped when the list reaches them
+    hoisted_functions: FxHashSet<(usize, usize)>,
 }
 
 /// Context for a class being compiled (for private field handling)
@@ -117,6 +121,7 @@ impl Compiler {
             next_class_brand: 0,
             track_completion: false,
             source_file: None,
+            hoisted_functions: FxHashSet::default(),
         }
     }
 
